@@ -664,6 +664,20 @@ def _merge(run, P):
            construct=f"merge guard: {t}",
            why="merging conditionals with different conditions changes which "
                "statements run")
+    # no other merge: the current child is only ever replaced by the next child, or by
+    # the merged conditional above
+    others_ = [s_ for s_ in ast.walk(f.node) if isinstance(s_, ast.Assign)
+               and any(isinstance(t_, ast.Name) and t_.id == cur for t_ in s_.targets)
+               and s_ is not assign
+               and not (isinstance(s_.value, ast.Name))
+               and not (isinstance(s_.value, ast.Call) and isinstance(s_.value.func, ast.Attribute)
+                        and s_.value.func.attr in ("popleft", "pop"))]
+    run.ob("C06.merge", f, others_[0] if others_ else assign, not others_,
+           construct="the only node built from two neighbours is the merged conditional"
+                     + (f" (also: {norm(others_[0], 70)})" if others_ else ""),
+           why="fusing other neighbours (two loops over the same range, say) interleaves "
+               "the statements of the second with the iterations of the first: a "
+               "statement then runs before iterations it depends on")
     cond = slots.get("condition")
     ok = isinstance(cond, ast.Attribute) and cond.attr == "condition" \
         and dotted(cond.value) in (cur, nxt)
